@@ -42,6 +42,31 @@ def noisy_world(seed, n_chroms=3):
             if last + 8000 < w.chrom_len(chrom):
                 _, end = world2.intronic_novel_loci(w, gid, chrom, last, "+-"[(k + ci) % 2])
                 last = end + 3000
+    # an annotated three-exon gene with two unannotated three-exon loci of the OTHER strand inside its two introns (each spans about a quarter
+    # of the host; three genes in one region): genes of opposite strands are never joined
+    from vlib.world import Gene as _G, Transcript as _T
+    for ci, chrom in enumerate(main_chroms[:2]):
+        last = max([g.end for g in w.genes if g.chrom == chrom] + [1000]) + 3000
+        if last + 9000 < w.chrom_len(chrom):
+            hs = "+-"[ci % 2]
+            os_ = "-" if hs == "+" else "+"
+            hx = [(last, last + 400), (last + 3400, last + 3700), (last + 6700, last + 7200)]
+            host = _G("ASH%d" % (ci + 1), chrom, hs)
+            host.transcripts.append(_T(host.id + ".t1", host.id, chrom, hs, hx, True, "host-of-antisense-loci"))
+            for intr in host.transcripts[0].introns:
+                w.plant_sites(chrom, intr, hs)
+            w.genes.append(host)
+            for _ in range(10):
+                w.read_from_transcript(host.transcripts[0], mode="full", jitter=0, polya=True, flag=0 if hs == "+" else 16)
+            for k, base in enumerate((last + 800, last + 4100)):
+                ax = [(base, base + 300), (base + 800, base + 1050), (base + 1600, base + 2000)]
+                ag = _G("ASN%d_%d" % (ci + 1, k + 1), chrom, os_)
+                ag.hidden.append(_T(ag.id + ".h1", ag.id, chrom, os_, ax, False, "antisense-novel-in-intron"))
+                for intr in ag.hidden[0].introns:
+                    w.plant_sites(chrom, intr, os_)
+                w.genes.append(ag)
+                for _ in range(12):
+                    w.read_from_transcript(ag.hidden[0], mode="full", jitter=0, polya=True, flag=0 if os_ == "+" else 16)
     # reads with a reference intron chain that end at an alternative polyA site far downstream of the annotated end
     for ci, chrom in enumerate(main_chroms):
         last = max([g.end for g in w.genes if g.chrom == chrom] + [1000]) + 3000
